@@ -11,6 +11,7 @@ import MpirProofs.Lemmas.AliasMul
 import MpirProofs.Lemmas.AliasGcdext
 import MpirProofs.Props.C07_gcdextdc2
 import MpirProofs.Lemmas.AliasMpfDiv
+import MpirProofs.Lemmas.AliasPowm
 namespace Mpir.AliasMem
 open Mpir
 
@@ -205,5 +206,107 @@ example : errOfF (mpf_div 0 1 2 fs1) = "div0" := by decide
 -- negative examples: `copy_u` without `|| rp == up` (the seeded defect C05_c_2: "u is chopped anyway"), r = u; no copy of v, r = v
 example : errOfF (mpf_divV { copyUIfOverlap := false } 0 0 1 fs1) = "ub:mpn_tdiv_qr operands overlap" := by decide +kernel
 example : errOfF (mpf_divV { copyV := false } 1 0 1 fs1) = "ub:mpn_tdiv_qr operands overlap" := by decide +kernel
+
+/-! ## mpz_powm, mpz_powm_ui -/
+
+/-- mpz_powm (mpz/powm.c), every choice of r, b, e, m (r = b, r = e, r = m, b = e = m, …), m ≠ 0: either the value-level model
+    `Powm.mpz_powm` (C08: `mpz_powm_spec`, b^e mod m with 0 ≤ result < |m|; a negative exponent goes through mpz_invert) reports
+    DIVIDE_BY_ZERO and so does the call, or the call succeeds, r holds that model's result computed from the values of b, e, m
+    BEFORE the call and every other variable keeps its value.  What the C does for it: `mp = PTR (m)`, `ep = PTR (e)`,
+    `bp = PTR (b)` are fetched early (:77, :115, :121/:191) and stay valid because r is touched only at `ret:` (:279-283
+    `MPZ_REALLOC (r, rn); SIZ (r) = rn; MPN_COPY (PTR (r), rp, rn)`) — everything before, including the correction that re-reads
+    `PTR (m)` (:272-277), works in TMP space; the `es == 0` exit reads `mp[0]` before it stores `PTR (r)[0] = 1` (:88-89, no
+    realloc: `1 ≤ ALLOC (r)`, MPIR's object invariant).  `hsz` (|m| shorter than 2^58 limbs) is the size hypothesis of C08. -/
+theorem powm_ptr_spec {s : St} (h : Inv s) {r b e m : Nat} (hr : r < s.nv) (hb : b < s.nv) (he : e < s.nv) (hm : m < s.nv)
+    (ha : 1 ≤ s.alloc r) (hm0 : s.value m ≠ 0) (hsz : (s.size m).natAbs * 64 < B) :
+    (Powm.mpz_powm (s.value b) (s.value e) (s.value m) = .div0 ∧ powm r b e m s = .error "div0") ∨
+    ∃ s', powm r b e m s = .ok s' ∧ Inv s' ∧ s'.nv = s.nv ∧
+      s'.value r = ((val (Powm.mpz_powm (s.value b) (s.value e) (s.value m)).limbs : Nat) : Int) ∧
+      ∀ i, i < s.nv → i ≠ r → s'.value i = s.value i :=
+  powm_ok h hr hb he hm ha hm0 hsz
+
+/-- mpz_powm_ui (mpz/powm_ui.c), every choice of r, b, m: `el = 0` exit (:135-141, `mp[0]` read before `PTR (r)[0] = 1`), the
+    small-exponent loop in TMP space (el < 20), the deflection to mpz_powm through a local mpz_t (el ≥ 20). -/
+theorem powm_ui_ptr_spec {s : St} (h : Inv s) {r b m : Nat} (hr : r < s.nv) (hb : b < s.nv) (hm : m < s.nv)
+    (el : Nat) (hel : el < B) (ha : 1 ≤ s.alloc r) (hm0 : s.value m ≠ 0) (hsz : (s.size m).natAbs * 64 < B) :
+    ∃ s', powm_ui r b el m s = .ok s' ∧ Inv s' ∧ s'.nv = s.nv ∧
+      s'.value r = ((val (Powm.mpz_powm_ui (s.value b) el (s.value m)).limbs : Nat) : Int) ∧
+      ∀ i, i < s.nv → i ≠ r → s'.value i = s.value i :=
+  powm_ui_ok h hr hb hm el hel ha hm0 hsz
+
+-- r = m in place; r = b = e = m; negative exponent with r = m; es = 0 with r = m
+example : lookP (powm 3 1 2 3 (ofInts [0, -(2^70+5), 13, 2^130+12345])) 4 =
+    .ok [(0, 1, 0), (-(2^70+5), 2, 1), (13, 1, 2), ((-(2^70+5 : Int))^13 % (2^130+12345), 3, 3)] := by decide +kernel
+example : lookP (powm 1 1 1 1 (ofInts [0, 2^70+1])) 2 = .ok [(0, 1, 0), (0, 2, 1)] := by decide +kernel
+example : lookP (powm 3 1 2 3 (ofInts [0, 6, 0, 7])) 4 = .ok [(0, 1, 0), (6, 1, 1), (0, 1, 2), (1, 1, 3)] := by decide +kernel
+example : lookP (powm 0 1 2 3 (ofInts [0, 6, -5, 2^70*3])) 4 = .error "div0" := by decide +kernel
+example : lookP (powm_ui 3 1 0 3 (ofInts [0, 5, 13, 1])) 4 = .ok [(0, 1, 0), (5, 1, 1), (13, 1, 2), (0, 1, 3)] := by decide +kernel
+-- negative examples: `PTR (r)[0] = 1` before `mp[0] != 1` is tested (r = m = 7: 0 instead of 1); the result written into
+-- PTR (r) before the final correction reads m (r = m, negative b, odd e: 0 instead of (-b)^13 mod m)
+example : lookP (powmV { readBeforeWrite := false } 3 1 2 3 (ofInts [0, 6, 0, 7])) 4 =
+    .ok [(0, 1, 0), (6, 1, 1), (0, 1, 2), (0, 1, 3)] := by decide +kernel
+example : (lookP (powmV { resultInTmp := false } 3 1 2 3 (ofInts [0, -(2^70+5), 13, 2^130+12345])) 4).map (·.getD 3 default) =
+    .ok (0, 3, 3) := by decide +kernel
+
+/-! ## mpz_addmul, mpz_submul -/
+
+/-- mpz_addmul / mpz_submul (mpz/aorsmul.c, with mpz_aorsmul_1 of aorsmul_i.c for a one-limb y), every choice of w, x, y
+    (w = x, w = y, x = y, all equal): w ± x y of the values before the call.  What the C does for it: `MPZ_REALLOC (w, …)` first,
+    `wp = PTR (w)`, `PTR (x)`, `PTR (y)` fetched afterwards (aorsmul.c:81-82, :88/:97); the product goes to TMP space because w
+    is still needed (:95-97), except when w = 0 (:84-91: x, y ≠ 0 then, so no overlap). -/
+theorem addmul_ptr_spec {s : St} (h : Inv s) {w x y : Nat} (hw : w < s.nv) (hx : x < s.nv) (hy : y < s.nv) :
+    ∃ s', addmul w x y s = .ok s' ∧ Inv s' ∧ s'.nv = s.nv ∧ s'.value w = s.value w + s.value x * s.value y ∧
+      ∀ i, i < s.nv → i ≠ w → s'.value i = s.value i :=
+  addmul_ok h hw hx hy
+
+theorem submul_ptr_spec {s : St} (h : Inv s) {w x y : Nat} (hw : w < s.nv) (hx : x < s.nv) (hy : y < s.nv) :
+    ∃ s', submul w x y s = .ok s' ∧ Inv s' ∧ s'.nv = s.nv ∧ s'.value w = s.value w - s.value x * s.value y ∧
+      ∀ i, i < s.nv → i ≠ w → s'.value i = s.value i :=
+  submul_ok h hw hx hy
+
+example : lookP (submul 1 1 1 (ofInts [2^100, 2^70+1, -(2^65+7)])) 2 = .ok [(2^100, 2, 0), (2^70+1 - (2^70+1)*(2^70+1), 5, 3)] := by
+  decide +kernel
+example : (lookP (addmul 1 1 2 (ofInts [2^100, 2^70+1, -(2^65+7)])) 3).map (·.map (·.1)) =
+    .ok [2^100, 2^70+1 + (2^70+1) * -(2^65+7), -(2^65+7)] := by decide +kernel
+-- negative examples: PTR (x) fetched before MPZ_REALLOC (w) with w = x; the product formed in wp with w = x
+example : lookP (aorsmulV { reallocThenPtr := false } false 1 1 2 (ofInts [2^100, 2^70+1, -(2^65+7)])) 3 =
+    .error "ub:read of a freed block" := by decide +kernel
+example : lookP (aorsmulV { productInTmp := false } false 1 1 2 (ofInts [2^100, 2^70+1, -(2^65+7)])) 3 =
+    .error "ub:mpn_mul product overlaps a factor" := by decide +kernel
+
+/-! ## mpz_sqrt, mpz_lcm, mpz_invert -/
+
+/-- mpz_sqrt (mpz/sqrt.c), root = op or not, op ≥ 0: the operand is copied to TMP space when `root_ptr == op_ptr` (:69-76);
+    a root block that is too small is replaced by free + allocate (:51-67). -/
+theorem mpz_sqrt_ptr_spec {s : St} (h : Inv s) {root op : Nat} (hr : root < s.nv) (ho : op < s.nv) (hop : 0 ≤ s.value op) :
+    ∃ s', mpz_sqrt root op s = .ok s' ∧ Inv s' ∧ s'.nv = s.nv ∧ s'.value root = (Nat.sqrt (s.value op).toNat : Int) ∧
+      ∀ i, i < s.nv → i ≠ root → s'.value i = s.value i :=
+  mpz_sqrt_ok h hr ho hop
+
+/-- mpz_lcm (mpz/lcm.c), every choice of r, u, v: the one-limb arms (`MPZ_REALLOC (r, usize+1)` first, then `PTR (u)`,
+    `PTR (v)[0]`, mpn_mul_1 in place; this is the function of finding C05_a_2) and the general arm through a local g
+    (mpz_gcd, mpz_divexact, mpz_mul into r). -/
+theorem mpz_lcm_ptr_spec {s : St} (h : Inv s) {r u v : Nat} (hr : r < s.nv) (hu : u < s.nv) (hv : v < s.nv) :
+    ∃ s', mpz_lcm r u v s = .ok s' ∧ Inv s' ∧ s'.nv = s.nv ∧ s'.value r = ((Int.lcm (s.value u) (s.value v) : Nat) : Int) ∧
+      ∀ i, i < s.nv → i ≠ r → s'.value i = s.value i :=
+  mpz_lcm_ok h hr hu hv
+
+/-- mpz_invert (mpz/invert.c), every choice of inverse, x, n: gcd and cofactor are computed into two local variables
+    (`mpz_gcdext (gcd, tmp, NULL, x, n)`, taken at the value-level `Gcd.mpz_gcdext`), `inverse` is written only when the
+    inverse exists — otherwise EVERY variable keeps its value. -/
+theorem mpz_invert_ptr_spec {s : St} (h : Inv s) {inv x n : Nat} (hi : inv < s.nv) (hx : x < s.nv) (hn : n < s.nv) :
+    match Gcd.mpz_invert (s.value x) (s.value n) with
+    | none => ∃ s', mpz_invert inv x n s = .ok (false, s') ∧ Inv s' ∧ s'.nv = s.nv ∧ ∀ i, i < s.nv → s'.value i = s.value i
+    | some z => ∃ s', mpz_invert inv x n s = .ok (true, s') ∧ Inv s' ∧ s'.nv = s.nv ∧ s'.value inv = z ∧
+        ∀ i, i < s.nv → i ≠ inv → s'.value i = s.value i :=
+  mpz_invert_ok Mpir.C07z.mpn_gcdext_contract h hi hx hn
+
+example : lookP (mpz_sqrt 1 1 (ofInts [0, 2^200+12345])) 2 = .ok [(0, 1, 0), (2^100, 4, 1)] := by decide +kernel
+example : lookP (mpz_sqrtV { copyOp := false } 1 1 (ofInts [0, 2^200+12345])) 2 = .error "ub:mpn_sqrtrem operands overlap" := by
+  decide +kernel
+example : lookP (mpz_lcm 1 1 1 (ofInts [0, -(2^70*6), 7])) 3 = .ok [(0, 1, 0), (2^70*6, 3, 5), (7, 1, 2)] := by decide +kernel
+example : (lookP (mpz_lcm 2 1 2 (ofInts [0, 2^70*6, -15])) 3).map (·.map (·.1)) = .ok [0, 2^70*6, 2^70*30] := by decide +kernel
+example : (mpz_invert 2 1 2 (ofInts [0, 6, 2^70*3])).map (fun r => (r.1, r.2.view 3)) =
+    .ok (false, [(0, 1, 0), (6, 1, 1), (2^70*3, 2, 2)]) := by decide +kernel
 
 end Mpir.AliasMem
